@@ -16,6 +16,13 @@ RULES = {
     "R-REHASH-DECISION": ("rules.lookup", "r_rehash_decision"),
     "R-ENTRY-NOEFFECT": ("rules.lookup", "r_entry_noeffect"),
     "R-EQ-NOEFFECT": ("rules.lookup", "r_eq_noeffect"),
+    "R-ITEMS-GUARD": ("rules.iters", "r_items_guard"),
+    "R-FORWARD": ("rules.iters", "r_forward"),
+    "R-CLONE-FIELDS": ("rules.iters", "r_clone_fields"),
+    "R-DEFAULT-EMPTY": ("rules.iters", "r_default_empty"),
+    "R-RETAIN-SHAPE": ("rules.iters", "r_retain_shape"),
+    "R-EXTRACT-NODROP": ("rules.iters", "r_extract_nodrop"),
+    "R-MANYMUT": ("rules.iters", "r_manymut"),
     "R-ACCT": ("rules.acct", "r_acct"),
     "R-CTRL-WRITE": ("rules.acct", "r_ctrl_write"),
     "R-ERASE-BEFORE": ("rules.ownership", "r_erase_before"),
@@ -90,6 +97,38 @@ PROPS["C01"] = {
     "decided": "the mechanisms the property rests on are structurally intact on every path: lookups stop only at an EMPTY byte and all search loops agree (R-PROBE-STOP); control bytes are written only through mirror-maintaining primitives (R-CTRL-WRITE); "
                "every insert slot passes through the small-table fix-up (R-SLOT-PROVENANCE) and is consumed before any other mutation, buckets are not used across a rehash (R-SLOT-FRESH, R-BUCKET-FRESH); free-slot accounting (R-ACCT); growth decisions (R-RESERVE-GUARD, R-REHASH-DECISION)",
     "not_decided": "that each call returns what a reference association list would return; the values computed by erase's DELETED-vs-EMPTY threshold, the triangular probe, is_in_same_group and the in-place rehash loop",
+}
+
+PROPS["C09"] = {
+    "rules": ["R-ITEMS-GUARD", "R-FORWARD", "R-CLONE-FIELDS", "R-DEFAULT-EMPTY"],
+    "level": "other",
+    "decided": "the count-bounded group walk is guarded by items != 0 and decrements items exactly once per yielded element, size_hint is (items, Some(items)), fold receives items (R-ITEMS-GUARD: fused, exact length reporting); "
+               "every wrapper iterator forwards next/size_hint/fold/len to the same inner cursor (R-FORWARD); hand-written Clone impls copy field i from field i (R-CLONE-FIELDS); default iterators are built over the static empty table (R-DEFAULT-EMPTY)",
+    "not_decided": "that next_impl/fold_impl visit each FULL byte exactly once (bit-mask walk over runtime control bytes)",
+}
+
+PROPS["C10"] = {
+    "rules": ["R-RETAIN-SHAPE", "R-EXTRACT-NODROP", "R-DRAIN-PROTOCOL", "R-NOALLOC-REACH", "R-ERASE-BEFORE", "R-ACCT"],
+    "level": "other",
+    "decided": "retain calls its predicate once per element, erases exactly on false and erases the bucket just yielded (R-RETAIN-SHAPE); extract_if types have no Drop and remove exactly on true (R-EXTRACT-NODROP); "
+               "the drain protocol: table moved out, remainder dropped, cleared, written back (R-DRAIN-PROTOCOL); clear/drain/retain/extract_if cannot reach deallocate (R-NOALLOC-REACH); erase-before-drop and clear-shape accounting (R-ERASE-BEFORE, R-ACCT)",
+    "not_decided": "interaction of erase with the iterator's live group snapshot; which elements a particular predicate selects",
+}
+
+PROPS["C15"] = {
+    "rules": ["R-MANYMUT", "R-SIG-REGION", "R-MUT-FROM-MUT"],
+    "level": "other",
+    "decided": "the no-alias clause: every conversion of looked-up pointers into &mut is dominated by a complete pairwise pointer-identity check that panics on equality and depends on nothing else; the unchecked variants are unreachable from safe code except through it; "
+               "every requested key gets its own unconditional find; the returned references borrow the collection exclusively (R-SIG-REGION, R-MUT-FROM-MUT)",
+    "not_decided": "result order and that each present key yields its own entry (runtime)",
+}
+
+PROPS["C05"] = {
+    "rules": ["R-PROBE-STOP", "R-MANYMUT", "R-EQ-NOEFFECT", "R-SLOT-FRESH", "R-ACCT", "R-ITEMS-GUARD"],
+    "level": "other",
+    "decided": "probe termination never depends on eq/hash answers, only on an EMPTY byte (R-PROBE-STOP) whose existence is the free-slot accounting (R-ACCT); aliasing in get_many_mut is decided by pointer identity, not by the user's eq (R-MANYMUT); "
+               "no accounting store depends on an eq answer (R-EQ-NOEFFECT); a slot found before a rehash is never used after it (R-SLOT-FRESH); iteration is bounded by items (R-ITEMS-GUARD)",
+    "not_decided": "that len() equals the number of elements yielded under inconsistent hashes in rehash_in_place (loop logic over runtime control bytes); R-HASH-TAINT is added below when built",
 }
 
 NOT_APPLICABLE = {
